@@ -8,13 +8,15 @@ import ecc_file_x as fx
 import ecc_scen as es
 import ecc_util as eu
 
-LEAN_MODULES = ["Pff.Props.C03", "Pff.Props.RunC", "Pff.Props.Bridge"]
+LEAN_MODULES = ["Pff.Props.C03", "Pff.Props.RunC", "Pff.Props.Bridge", "Pff.Props.NonVacuity"]
 PROP_MODULE = "Pff.Props.C03"
 THEOREMS = ["Pff.Ecc.C03_whole_file_partial", "Pff.Ecc.C03_header_file_partial", "Pff.Ecc.C03_exit",
             "Pff.Layout.C10_agree_whole", "Pff.Layout.C10_agree_header",
             "Pff.Run.C03_run_pristine",
             "Pff.Bridge.C03_clean_ops_A",
-            "Pff.Bridge.C03_clean_ops_B"]
+            "Pff.Bridge.C03_clean_ops_B",
+            "Pff.NonVacuity.toy_premises",
+            "Pff.NonVacuity.toy_run"]
 MODELLED = [("pyFileFixity/header_ecc.py", "main"), ("pyFileFixity/header_ecc.py", "entry_assemble"), ("pyFileFixity/header_ecc.py", "compute_ecc_hash"),
             ("pyFileFixity/structural_adaptive_ecc.py", "main"), ("pyFileFixity/structural_adaptive_ecc.py", "stream_entry_assemble"),
             ("pyFileFixity/structural_adaptive_ecc.py", "stream_compute_ecc_hash")]
